@@ -1279,12 +1279,34 @@ pub fn gen_c17(rng: &mut Rng, _i: u64, tier: Tier) -> Script {
                 s.set("total_bias", rng.pick(&[1i64, 16, 1000, 70000, 1 << 20]));
             }
             let n = psize(rng);
-            let plain = gen::plaintext(rng, n);
+            let mut plain = gen::plaintext(rng, n);
             let style = rng.next_u64();
             let fp = rng.pick(&[0u64, 10, 40]);
             let mut ops = crate::props_pipe::comp_ops(rng, n, style, &[1, 2, 3, 4, 5, 6, -1, 100], fp, true);
             for o in ops.iter_mut() {
                 o.push(if rng.chance(1, 30) { 1 } else { 0 });
+            }
+            if rng.chance(1, 40) {
+                // input whose running Adler-32 is special (0 / 1 / a zero half) right when the stream is reset or
+                // flushed: fed without a flush request, then a reset (or a flush), then ordinary data
+                let (ta, tb) = gen::adler_special(rng);
+                let pl = rng.pick(&[0usize, 0, 30]);
+                let t = gen::adler_target(rng, ta, tb, pl);
+                let tl = t.len() as i64;
+                let big = (t.len() + plain.len() + 1000) as i64;
+                let mut p2 = t;
+                plain.truncate(300);
+                p2.extend_from_slice(&plain);
+                plain = p2;
+                let mut o2: Vec<Vec<i64>> = Vec::new();
+                if rng.chance(1, 2) {
+                    o2.push(vec![tl, big, 0, 0]);
+                } else {
+                    o2.push(vec![tl - 1, big, 0, 0]);
+                    o2.push(vec![1, big, 0, 0]);
+                }
+                o2.push(vec![rng.pick(&[0i64, 10, 300]), big, rng.pick(&[0i64, 2, 4]), rng.pick(&[1i64, 1, 0])]);
+                ops = o2;
             }
             s.ops = ops;
             s.set_blob("plain", plain);
